@@ -57,6 +57,10 @@ func rebootPersistedStore(config *Config, log *zap.SugaredLogger, stats tally.Sc
 		}
 		if !ok {
 			log.With("key", key).Warn("Could not reboot blob from disk - its parent directory is there but the blob is missing")
+			// Remove the leftovers (e.g. of a crash in the middle of Create or Delete), otherwise they block re-creating the key.
+			if err := os.RemoveAll(pather.dirPath(key, complete)); err != nil {
+				return nil, fmt.Errorf("remove leftovers of blob that could not be rebooted: %w", err)
+			}
 			continue
 		}
 		if b.complete && b.evictable {
